@@ -59,6 +59,12 @@ func (seq *Sequence) Release() error {
 	seq.Lock()
 	defer seq.Unlock()
 
+	// nothing is leased (e.g. Next was never called on this object): there is nothing to give back,
+	// and writing seq.next would roll back the mark stored by a previous owner of the key.
+	if seq.next >= seq.reserved {
+		return nil
+	}
+
 	var buf [8]byte
 	binary.BigEndian.PutUint64(buf[:], seq.next)
 	if err := seq.store.Set(seq.key, buf[:]); err != nil {
